@@ -168,11 +168,16 @@ template <class T> struct VectorBaseRow
       g_assign_ok = (role == ROLE_SECOND && o.role == ROLE_FIRST && o.dimen == dimen);
       c05_copy(val, o.val, dimen);
    }
-   /* x = sparse vector (only reached by seeded faults that restore the sparse accumulator): the result is not the accumulator */
+   /* x = sparse vector: clear(), then val[index(k)] = value(k) for k = 0..size-1 (basevectors.h, conformance-checked); modelled
+      at the ghost cell: g_p receives the value of the LAST entry whose index is g_p (tracked by DSVectorBase::add(i, v)), else 0.
+      (multBasis: only reached by seeded faults that restore the sparse accumulator - the result is then not the accumulator) */
    void operator=(const SVectorBase<T>& o)
    {
-      (void)o; g_assign_calls++; g_assign_ok = 0;
-      T* d = val; if(dimen > 0) { __CPROVER_havoc_object(d); }
+      g_assign_calls++; g_assign_ok = 0;
+      int n = dimen; T* d = val; int gp = o.gpos; const T* vv = o.vals;
+      T t = 0;
+      if(gp >= 0) t = vv[gp];
+      if(n > 0) { __CPROVER_havoc_object(d); if(0 <= g_p && g_p < n) d[g_p] = t; }
    }
 };
 static inline void c05_force_vectorbaserow() { VectorBaseRow<R> a; (void)a; }
